@@ -139,6 +139,65 @@ def send(src):
     return em.blk(parse_body(body))
 
 
+def agent_poll(src):
+    """StunAgent::poll: `let mut` accumulators, one `for` loop over the outstanding requests (visited in an
+    order the model takes as a parameter: HashMap iteration order is unspecified), then the code after the
+    loop.  Emits (after, loop, entry) bodies."""
+    txt = src.get(AGENT)
+    imp = impl_body(txt, r"impl\s+StunAgent\s*\{")
+    if imp is None:
+        raise XlateError("impl StunAgent not found")
+    body = fn_body(imp, r"pub\s+fn\s+poll\s*<'a>\s*\(\s*&mut\s+self\s*,\s*now\s*:\s*Instant\s*\)\s*->\s*StunAgentPollRet<'a>\s*\{")
+    if body is None:
+        raise XlateError("StunAgent::poll not found")
+    stmts = [x for x in parse_body(body) if not (x[0] == "expr" and x[1][0] == "macro")]
+    from rustmini import parse_expr, match
+    accs = []
+    i = 0
+    while i < len(stmts) and stmts[i][0] == "let":
+        _, pat, init, els = stmts[i]
+        if pat[0] != "pbind" or els is not None or init is None:
+            raise XlateError("poll: accumulator declaration shape")
+        accs.append((pat[1], init))
+        i += 1
+    if [a for a, _ in accs] != ["lowest_wait", "timeout", "cancelled"]:
+        raise XlateError(f"poll: accumulators {[a for a, _ in accs]}")
+    if i >= len(stmts) or stmts[i][0] != "for":
+        raise XlateError("poll: no for loop after the accumulators")
+    _, pat, it, loop_body = stmts[i]
+    if pat != ("pbind", "request") or not match(parse_expr("self.outstanding_requests.values_mut()"), it, {}):
+        raise XlateError("poll: loop header shape")
+    after = stmts[i + 1:]
+    exprs = [
+        ("request.transaction_id", "__k"),
+        ("StunAgentPollRet::SendData(transmit.into_owned())", "(Out.transmit (some __k) (mkTransmit s request))"),
+        ("StunAgentPollRet::SendData(transmit)", "(Out.transmit (some __k) (mkTransmit s request))"),
+        ("StunAgentPollRet::TransactionTimedOut($t)", "(Out.timedOut $t)"),
+        ("StunAgentPollRet::TransactionCancelled($t)", "(Out.cancelled $t)"),
+        ("StunAgentPollRet::WaitUntil($t)", "(Out.waitUntil $t)"),
+        ("$o.map_or(true, |$x| $body)", "(Option.all (fun $x => $body) $o)"),
+        ("$o.unwrap_or($d)", "(Option.getD $o $d)"),
+        ("Duration::from_secs($x)", "(msNs ($x * 1000))"),
+    ]
+    pats = [("StunRequestPollRet::Cancelled", "ReqRet.cancelled"), ("StunRequestPollRet::TimedOut", "ReqRet.timedOut"),
+            ("StunRequestPollRet::SendData($t)", "ReqRet.sendData"), ("StunRequestPollRet::WaitUntil($t)", "ReqRet.waitUntil $t")]
+    lets = [("request.poll($n)", "(reqPoll request $n)",
+             "let request := __v.1; let s := { s with out := update s.out __k (fun _ => request) }; let __v := __v.2;"),
+            ("self.outstanding_requests.remove($t)", "(lookup s.out $t)", "let s := { s with out := remove s.out $t };")]
+    locs = ["now", "lowest_wait", "timeout", "cancelled"]
+    inits = []
+    em0 = Emitter(exprs=exprs, state="s", ret="({s}, {v})", locals_=locs)
+    for name, init in accs:
+        inits.append(em0.tx(init) if init != ("path", "None") else "none")
+    em_after = Emitter(exprs=exprs, pats=pats, lets=lets, state="s", ret="({s}, {v})", locals_=locs)
+    after_l = em_after.blk(list(after))
+    em_loop = Emitter(exprs=exprs, pats=pats, lets=lets, state="s", ret="({s}, {v})", locals_=locs + ["request"])
+    em_loop.on_end = em_loop.on_continue = "agentPollLoop now __rest s lowest_wait timeout cancelled"
+    em_loop.on_break = "agentPollAfter now s lowest_wait timeout cancelled"
+    loop_l = em_loop.blk(list(loop_body))
+    return after_l, loop_l, inits
+
+
 def req_mut(src, name):
     txt = src.get(AGENT)
     imp = impl_body(txt, r"impl\s*<'a>\s*StunRequestMut<'a>\s*\{")
@@ -222,6 +281,23 @@ def items(src):
     yield ("FnAgent", "cancel", "(r : Req) : Req", lambda: req_mut(src, "cancel"), None)
     yield ("FnAgent", "cancelRetransmissions", "(r : Req) : Req", lambda: req_mut(src, "cancel_retransmissions"), None)
     yield ("FnAgent", "configureTimeout", "(tr : Transport) (r : Req) (rto n last : Nat) : Req", lambda: req_mut(src, "configure_timeout"), None)
+    ap = {}
+    def ap_part(k):
+        def f():
+            if not ap:
+                a, l, i = agent_poll(src)
+                ap.update(after=a, loop=l, inits=i)
+            if k == "after":
+                return ap["after"]
+            if k == "loop":
+                return ("match __ord with\n  | [] => agentPollAfter now s lowest_wait timeout cancelled\n  | __k :: __rest =>\n    match lookup s.out __k with\n"
+                        "    | none => agentPollLoop now __rest s lowest_wait timeout cancelled\n    | some request => " + ap["loop"])
+            return "agentPollLoop now ord s " + " ".join(ap["inits"])
+        return f
+    sig_acc = "(now : Time) (s : State) (lowest_wait : Option Time) (timeout cancelled : Option Nat) : State × Out"
+    yield ("FnAgent", "agentPollAfter", sig_acc, ap_part("after"), None)
+    yield ("FnAgent", "agentPollLoop", "(now : Time) (__ord : List Nat) (s : State) (lowest_wait : Option Time) (timeout cancelled : Option Nat) : State × Out", ap_part("loop"), None)
+    yield ("FnAgent", "agentPoll", "(s : State) (now : Time) (ord : List Nat) : State × Out", ap_part("entry"), None)
     yield ("FnTcp", "tcpTake", "(buf : Bytes) (offset : Nat) : Bytes × Bytes", lambda: tcp_fn(src, "take"), None)
     yield ("FnTcp", "tcpPull", "(buf : Bytes) : Option Bytes × Bytes", lambda: tcp_fn(src, "pull_data"), None)
     yield ("FnTcp", "tcpPush", "(buf data : Bytes) : Bytes", lambda: tcp_fn(src, "push_data"), None)
